@@ -297,7 +297,7 @@ pub fn pin_probe(bin: &str, out_path: &str) -> eyre::Result<()> {
         seed(&src, 2)?;
         let child = Command::new(&me).arg("db-reader-pinned").arg(&dst).arg(k.to_string()).arg(&dir).stdout(std::process::Stdio::piped()).stderr(std::process::Stdio::piped()).spawn()?;
         let mut ready = false;
-        for _ in 0..400 {
+        for _ in 0..2400 {
             if dir.join("reader-ready").exists() {
                 ready = true;
                 break;
